@@ -1490,6 +1490,8 @@ class FuncInterp(ModelsMixin, CallModelsMixin):
         if callees:
             self.rec_call(node, callees, argl, "call", recv=recvs, ret=res)
             self.A.stats["calls_resolved"] += 1
+        if res is not None and (fv.dep or fv.mdep):
+            res = res.add_dep(fv.dep, fv.mdep)  # which function was called depends on the callee expression
         return res if res is not None else UNKNOWN
 
     def bind_args(self, fi: FuncInfo, pos: List[Val], kw: Dict[str, Val], star=None) -> List[Optional[Val]]:
